@@ -367,14 +367,15 @@ func (w *Writer) write(opt *option) {
 
 	var textList []string
 	line := opt.nodes[0].End().Line
-	for idx, node := range opt.nodes {
-		mode := opt.mode
-		preIdx := idx - 1
-		var preNodeHasLeading bool
-		if preIdx > -1 && preIdx < len(opt.nodes) {
-			preNode := opt.nodes[preIdx]
-			preNodeHasLeading = preNode.HasLeadingCommentGroup()
+	var preNodeHasLeading bool
+	for _, node := range opt.nodes {
+		// a node that formats to nothing (e.g. an empty body "()") takes no part in the layout,
+		// a line break written for it would be removed by the next run
+		if util.TrimWhiteSpace(node.Format()) == "" {
+			continue
 		}
+
+		mode := opt.mode
 		if node.HasHeadCommentGroup() || preNodeHasLeading {
 			mode = ModeAuto
 		}
@@ -383,10 +384,7 @@ func (w *Writer) write(opt *option) {
 			textList = append(textList, NewLine)
 		}
 		line = node.End().Line
-		if util.TrimWhiteSpace(node.Format()) == "" {
-			continue
-		}
-
+		preNodeHasLeading = node.HasLeadingCommentGroup()
 		textList = append(textList, node.Format(opt.prefix))
 	}
 
